@@ -29,7 +29,7 @@ if [ -f "$D/demo.c" ]; then
 fi
 results=()
 for c in "$@"; do
-  out=$(IMB_LIBDIR="$MUT" VERIF_OUT="$S/out" $($V/tools/build_sim.sh >/dev/null 2>&1; IMB_LIBDIR="$MUT" $V/tools/build_sim.sh 2>/dev/null) check "$c" 2>&1); rc=$?
+  out=$(IMB_LIBDIR_RESOLVED="$MUT" IMB_LIBDIR="$MUT" VERIF_OUT="$S/out" $($V/tools/build_sim.sh >/dev/null 2>&1; IMB_LIBDIR="$MUT" $V/tools/build_sim.sh 2>/dev/null) check "$c" 2>&1); rc=$?
   results+=("$c:exit=$rc:violations=$(echo "$out" | grep -c '^VIOLATION')")
   echo "check $c on mutant: exit=$rc $(echo "$out" | grep -A1 '^VIOLATION' | head -2 | tr '\n' ' ' | cut -c1-250)"
 done
